@@ -46,7 +46,7 @@ func main() {
 		return
 	}
 	if *dumpFuncs {
-		names, err := core.ScanDecls(*repo)
+		names, ptypes, err := core.ScanDeclsTyped(*repo)
 		if err != nil {
 			fmt.Fprintln(os.Stderr, err)
 			os.Exit(2)
@@ -57,7 +57,7 @@ func main() {
 		}
 		sort.Strings(ns)
 		for _, n := range ns {
-			fmt.Println(n + "\t" + strings.Join(names[n], ","))
+			fmt.Println(n + "\t" + strings.Join(names[n], ",") + "\t" + strings.Join(ptypes[n], ";"))
 		}
 		return
 	}
